@@ -7,6 +7,7 @@ import (
 
 	"cosmossdk.io/math"
 	sdk "github.com/cosmos/cosmos-sdk/types"
+	authtypes "github.com/cosmos/cosmos-sdk/x/auth/types"
 	banktypes "github.com/cosmos/cosmos-sdk/x/bank/types"
 
 	opchildtypes "github.com/initia-labs/OPinit/x/opchild/types"
@@ -78,6 +79,11 @@ func (w *c08World) solvency(where string) {
 }
 
 func (w *c08World) hookData(signer sim.Account, good bool, l2denom string) []byte {
+	return w.hookDataMsg(signer, good, l2denom, false)
+}
+
+// hookDataMsg: a hook signed by the deposit's recipient; it either transfers 1 unit on L2 or withdraws 1 unit back to L1.
+func (w *c08World) hookDataMsg(signer sim.Account, good bool, l2denom string, withdraw bool) []byte {
 	l2 := w.tc.L2.L2
 	n, s, ok := l2.AccNumSeq(signer.Addr)
 	if !ok {
@@ -87,7 +93,11 @@ func (w *c08World) hookData(signer sim.Account, good bool, l2denom string) []byt
 	if !good {
 		amt = math.NewInt(1 << 62).MulRaw(4) // overspend: the hook fails
 	}
-	bz, err := l2.SignTx(signer, n, s, sim.L2ChainID, 300_000, banktypes.NewMsgSend(signer.Addr, w.tc.L2.Users[5].Addr, sdk.NewCoins(sdk.NewCoin(l2denom, amt))))
+	var msg sdk.Msg = banktypes.NewMsgSend(signer.Addr, w.tc.L2.Users[5].Addr, sdk.NewCoins(sdk.NewCoin(l2denom, amt)))
+	if withdraw {
+		msg = opchildtypes.NewMsgInitiateTokenWithdrawal(signer.String(), w.tc.L1.Users[6].String(), sdk.NewCoin(l2denom, amt))
+	}
+	bz, err := l2.SignTx(signer, n, s, sim.L2ChainID, 300_000, msg)
 	if err != nil {
 		panic(err)
 	}
@@ -103,7 +113,7 @@ func (w *c08World) opL1Deposit() {
 	toStr := to.String()
 	var data []byte
 	kind := "good"
-	switch w.rng.Intn(10) {
+	switch w.rng.Intn(11) {
 	case 0:
 		toStr, kind = mon.Pick(w.rng, []string{"0xnotbech32", tc.L2.L2.Authority, "init1zzz"}), "bad-recipient"
 	case 1:
@@ -114,6 +124,18 @@ func (w *c08World) opL1Deposit() {
 		amt, kind = math.ZeroInt(), "zero"
 	case 4:
 		data, kind = w.rng.Bytes(20), "garbage-hook"
+	case 5:
+		data, kind = w.hookDataMsg(to, true, ref.L2Denom(tc.Bridge, d), true), "withdrawing-hook"
+	case 6:
+		// a blocked module account that already holds bridged tokens (fees are paid into the fee collector), with hook data
+		fc := authtypes.NewModuleAddress(authtypes.FeeCollectorName)
+		payer := mon.Pick(w.rng, tc.L2.Users[:4])
+		l2d := ref.L2Denom(tc.Bridge, d)
+		if bal := tc.L2.L2.BK.GetBalance(tc.L2.L2.Ctx, payer.Addr, l2d).Amount; bal.IsPositive() {
+			fee := math.NewInt(1 + int64(w.rng.Intn(int(minI64(bal.Int64(), 2_000_000)))))
+			_ = tc.L2.L2.BK.SendCoinsFromAccountToModule(tc.L2.L2.Ctx.WithEventManager(sdk.NewEventManager()), payer.Addr, authtypes.FeeCollectorName, sdk.NewCoins(sdk.NewCoin(l2d, fee)))
+		}
+		toStr, data, kind = fc.String(), w.rng.Bytes(12), "blocked-holder-with-data"
 	}
 	res := tc.L1.Deposit(from, tc.Bridge, toStr, d, amt, data)
 	w.run.Evaluations++
@@ -348,6 +370,7 @@ func checkC08(run *mon.Run, rng *mon.Rand, thorough bool) {
 		rr := rng.Split()
 		w := &c08World{run: run, rng: rr, tc: newTwoChain(4*time.Second, L2EnvOpts{}), denoms: []string{"uinit", "uusdc"}, feat: map[string]int{}, initial: map[string]*big.Int{}}
 		l1 := w.tc.L1.L1
+		w.tc.L1.L1.Speculate, w.tc.L2.L2.Speculate = rr.Bool(), rr.Bool()
 		for _, d := range w.denoms {
 			w.initial[d] = new(big.Int)
 			for _, coins := range sim.AllBalances(l1.Ctx, l1.BK) {
